@@ -416,8 +416,76 @@ theorem appsTransmit_spec (now : Int) (hp : Bool) : ∀ (k : Nat) (c c1 : Ctx) (
           · exact ih _ _ _ h ((upd_tx _ _).trans h2)
         · cases h
 
+theorem appTransmit_p (c : Ctx) (now : Int) (hp : Bool) (c1 : Ctx) (sent : Bool)
+    (h : appTransmit c now hp = (.ok c1, sent)) : c1.s.p = c.s.p := by
+  unfold appTransmit at h
+  simp only at h
+  split at h
+  · cases h
+  · split at h
+    · cases h; rfl
+    · split at h
+      · cases h
+      · split at h
+        · split at h
+          · split at h
+            · rename_i s' hs'
+              injection h with h1 h2
+              obtain ⟨_, rfl⟩ := transmit_cases _ _ _ _ h1
+              exact ((stOnly_toAwaitData _ _) _ _ hs').1
+            · cases h
+          · cases h
+        · injection h with h1 h2
+          obtain ⟨_, rfl⟩ := transmit_cases _ _ _ _ h1
+          rfl
+
+theorem appsTransmit_p (now : Int) (hp : Bool) : ∀ (k : Nat) (c c1 : Ctx) (sent : Bool),
+    appsTransmit now hp k c = (.ok c1, sent) → c1.s.p = c.s.p := by
+  intro k
+  induction k with
+  | zero => intro c c1 sent h; simp only [appsTransmit] at h; cases h; rfl
+  | succ k ih =>
+    intro c c1 sent h
+    simp only [appsTransmit] at h
+    rcases hA : appTransmit c now hp with ⟨r, s1⟩
+    rw [hA] at h
+    cases r with
+    | panic s => simp only at h; cases h
+    | ok c2 =>
+      have hp2 := appTransmit_p c now hp c2 s1 hA
+      cases s1 with
+      | true => simp only at h; cases h; exact hp2
+      | false =>
+        simp only at h
+        split at h
+        · split at h
+          · cases h; exact hp2
+          · exact (ih _ _ _ h).trans hp2
+        · cases h
+
+/-- End of a token hold (`passNow`): the own token, or a GAP poll. -/
+theorem passNow_kind (c : Ctx) (now : Int) :
+    Kind (fun _ b => IsOwnToken c.s.p.address b ∨ IsGapPoll c.s.p.address b) c (passNow c now) := by
+  unfold passNow
+  cases htr : tr c (fun s => toPassToken s true .first) "transition_pass_token" with
+  | panic s => exact Kind.panic _
+  | ok c1 =>
+    simp only [Res.bind]
+    obtain ⟨s', hs', rfl⟩ := tr_cases _ _ _ _ htr
+    have hp' : s'.p = c.s.p := ((stOnly_toPassToken true .first) _ _ hs').1
+    intro c' b h h0 hb
+    have := doPassToken_kind { c with s := s' } now c' b h h0 hb
+    simp only [hp'] at this
+    rcases this with h1 | ⟨_, h2⟩
+    · exact Or.inl h1
+    · exact Or.inr h2
+
+/-- What a token holder may send at the end of / during its token hold. -/
+def HolderKind (ts : Nat) (calls : List AppCall) (b : Bytes) : Prop :=
+  IsAppTelegram calls b ∨ IsOwnToken ts b ∨ IsGapPoll ts b
+
 theorem useTokenGo_kind (c : Ctx) (now : Int) (d : UseData) (hp : Bool) :
-    Kind (fun c' b => IsAppTelegram c'.calls b) c (useTokenGo c now d hp) := by
+    Kind (fun c' b => HolderKind c.s.p.address c'.calls b) c (useTokenGo c now d hp) := by
   intro c' b h h0 hb
   unfold useTokenGo at h
   simp only at h
@@ -428,30 +496,39 @@ theorem useTokenGo_kind (c : Ctx) (now : Int) (d : UseData) (hp : Bool) :
   | panic s => simp only at h; cases h
   | ok c2 =>
     obtain ⟨hno, hk⟩ := appsTransmit_spec now hp _ _ c2 sent hA ((upd_tx _ _).trans h0)
+    have hp2 : c2.s.p = c.s.p := appsTransmit_p now hp _ (upd c fun s => { s with st := .useToken d true }) c2 sent hA
     cases sent with
-    | true => simp only at h; cases h; exact hk b hb
+    | true => simp only at h; cases h; exact Or.inl (hk b hb)
     | false =>
       simp only at h
-      rw [tr_noTx _ _ _ c' h, hno rfl] at hb
-      cases hb
+      have := passNow_kind c2 now c' b h (hno rfl) hb
+      rw [hp2] at this
+      exact Or.inr this
 
 theorem doUseToken_kind (c : Ctx) (now : Int) :
-    Kind (fun c' b => IsAppTelegram c'.calls b) c (doUseToken c now) := by
+    Kind (fun c' b => HolderKind c.s.p.address c'.calls b) c (doUseToken c now) := by
   unfold doUseToken
   split
   · rename_i d fcd hst
     simp only
+    have hp : (waitSyncPause (holdUpdate c.s d) now).1.p = c.s.p := (waitSync_p _ _).trans (holdUpdate_keeps _ _).2
     split
     · exact Kind.of_noTx (noTx_ok_same _ _ rfl)
     · split
-      · exact useTokenGo_kind _ now d false
+      · have := useTokenGo_kind { c with s := (waitSyncPause (holdUpdate c.s d) now).1 } now d false
+        simp only [hp] at this
+        exact this
       · split
-        · exact useTokenGo_kind _ now d true
-        · exact Kind.of_noTx (tr_noTx _ _ _)
+        · have := useTokenGo_kind { c with s := (waitSyncPause (holdUpdate c.s d) now).1 } now d true
+          simp only [hp] at this
+          exact this
+        · have := passNow_kind { c with s := (waitSyncPause (holdUpdate c.s d) now).1 } now
+          simp only [hp] at this
+          exact this.mono (fun _ _ h => Or.inr h)
   · exact Kind.panic _
 
 theorem doAwaitDataResponse_kind (c : Ctx) (now : Int) :
-    Kind (fun c' b => IsAppTelegram c'.calls b) c (doAwaitDataResponse c now) := by
+    Kind (fun c' b => HolderKind c.s.p.address c'.calls b) c (doAwaitDataResponse c now) := by
   unfold doAwaitDataResponse
   split
   · rename_i address d hst
@@ -478,7 +555,18 @@ theorem doAwaitDataResponse_kind (c : Ctx) (now : Int) :
           | ok c2 =>
             rw [hb1] at h
             simp only [Res.bind] at h
-            exact doUseToken_kind c2 now c' b h ((hback _ c2 hb1).trans h0) hb
+            have := doUseToken_kind c2 now c' b h ((hback _ c2 hb1).trans h0) hb
+            have hp2 : c2.s.p = c.s.p := by
+              cases htr : tr { c with rx := _, s := (checkSlotExpired c.s now).1, calls := c.calls ++ [AppCall.timeout c.s.nextApp address] }
+                  (fun s => toUseToken s d) "transition_use_token" with
+              | panic s => rw [htr] at hb1; cases hb1
+              | ok c1 =>
+                rw [htr] at hb1
+                simp only [Res.bind] at hb1
+                cases hb1
+                exact (tr_keeps _ _ _ (stOnly_toUseToken d) c1 htr).p.trans (checkSlot_p _ _)
+            rw [hp2] at this
+            exact this
         · rw [if_neg hexp]
           exact Kind.of_noTx (noTx_ok_same _ _ rfl)
   · exact Kind.panic _
@@ -568,7 +656,7 @@ def Allowed (s : Station) (now : Int) (calls' : List AppCall) (b : Bytes) : Prop
   | .activeIdle sr _ _ =>
     (SilenceExpired s now ∧ b = selfToken ts) ∨ (∃ src, sr = some src ∧ IsStatusReply ts src b)
   | .claimToken _ => b = selfToken ts ∨ IsGapPoll ts b
-  | .useToken _ _ | .awaitData _ _ => IsAppTelegram calls' b
+  | .useToken _ _ | .awaitData _ _ => HolderKind ts calls' b
   | .passToken g _ => IsOwnToken ts b ∨ (g = true ∧ IsGapPoll ts b)
   | .checkTokenPass _ | .awaitStatus _ => IsOwnToken ts b
 
